@@ -162,6 +162,10 @@ def verify_function(prog, db, q, contract, case=None):
     if fi is None:
         fr.degraded = 'function %s no longer exists' % q
         return fr
+    decs = [ast.unparse(d) for d in fi.node.decorator_list if ast.unparse(d) not in ('staticmethod',)]
+    if decs:        # a decorator replaces the function by something the generator does not interpret (caches, wrappers)
+        fr.degraded = 'function %s is wrapped by decorator(s) %s, which the VC generator does not interpret' % (q, ', '.join(decs))
+        return fr
     ex.cur = fi
     ex.init_case_index = case.get('init', 0)
     if 'assign_shape' in case:
